@@ -30,6 +30,8 @@ def gen_cases(tier, seed):
             cases.append({"kind": "chain", "n": n, "seed": int(rng.integers(2 ** 31))})
     for n in (500, 2000):
         cases.append({"kind": "wide", "n": n, "seed": int(rng.integers(2 ** 31))})
+    for n in (300, 5000, 20000):
+        cases.append({"kind": "grad-with-history", "n": n, "seed": int(rng.integers(2 ** 31))})
     for depth in (10, 40, 60):
         cases.append({"kind": "ladder", "depth": depth, "seed": 0})
     for n in ((1500, 3000), (4000, 8000)) + (((20000, 40000),) if tier == "thorough" else ()):
@@ -39,7 +41,8 @@ def gen_cases(tier, seed):
             cases.append({"kind": "linear-cost", "n": n[0], "n2": n[1], "shape": "wide:" + wop, "seed": int(rng.integers(2 ** 31))})
     for n in (1000, 10000) + ((100000,) if tier == "thorough" else (30000,)):
         for mode in ("no_grad", "non-requiring", "detached-mix", "no_grad-with-parameter", "inside-retain_grads", "no_grad-linear", "changing-scalars",
-                     "nested-no_grad", "backward-inside-no_grad"):
+                     "nested-no_grad", "backward-inside-no_grad",
+                     "matmul-chain", "matmul-chain-no_grad-parameter", "dropout-noise", "frozen-net-rollout"):
             cases.append({"kind": "untracked", "n": n, "mode": mode, "seed": int(rng.integers(2 ** 31))})
     cases.append({"kind": "weakref", "seed": 0})
     for n in (300, 1000) + ((3000,) if tier == "thorough" else ()):
@@ -100,6 +103,29 @@ def run_case(ns, mon, c):
                           got=None if x.grad is None else x.grad.data.ravel()[:3].tolist(), want=factor))
         nrec = c["n"] + int(np.sum(0))     # every op records exactly one function except the two double-ops
         key = ("chain", c["n"], c["seed"])
+    elif kind == "grad-with-history":
+        # the gradient handed to backward() is itself the result of a long recorded computation: only its value matters
+        x = T(np.arange(1.0, 7.0).reshape(2, 3), requires_grad=True)
+        z = T(np.ones((2, 3)), requires_grad=True)
+        v, _ = build_chain(ns, z, c["n"], rng)
+        if v.shape != (2, 3):
+            v = v.reshape((2, 3))
+        y = x * 2.0
+        try:
+            y.backward(v)
+        except RecursionError:
+            return {"viol": [V("deep-chain:RecursionError:gradient-argument-with-history", f"backward(grad) raised RecursionError when grad is the result of {c['n']} recorded ops")] + mon.drain(),
+                    "counters": counters}
+        except Exception as e:
+            return {"viol": [V(f"deep-chain:{type(e).__name__}:gradient-argument-with-history", f"backward(grad) raised {type(e).__name__} when grad has a recorded history", error=str(e)[:200])] + mon.drain(),
+                    "counters": counters}
+        counters["grad_with_history_ops"] = c["n"]
+        if x.grad is None or not np.allclose(x.grad.data, 2.0 * v.data, rtol=1e-12):
+            viol.append(V("deep-chain:wrong-gradient:gradient-argument-with-history", "backward(grad) with a recorded tensor as grad did not use its value"))
+        if z._grad is not None:
+            viol.append(V("deep-chain:gradient-argument-differentiated", "the graph behind the gradient argument received gradients from a backward call on another graph"))
+        key = ("grad-with-history", c["n"])
+        size = c["n"]
     elif kind == "wide":
         x = T(rng.standard_normal(5), requires_grad=True)
         total = None
@@ -215,6 +241,11 @@ def run_case(ns, mon, c):
         gfix = T(rng.standard_normal(8))
         par = T(rng.standard_normal(8) * 1e-3, requires_grad=True)          # a parameter that requires grad, used inside untracked loops
         W = T(np.eye(8) * 0.999, requires_grad=True)
+        Wm = T(np.eye(8) * 0.5 + 0.0625, requires_grad=(c["mode"] == "matmul-chain-no_grad-parameter"))
+        drop = ns.nn.Dropout(0.1); drop.train()
+        net = ns.nn.Sequential(ns.nn.Linear(8, 8), ns.nn.Dropout(0.1), ns.nn.Tanh()); net.train(); net.freeze()
+        if c["mode"] in ("matmul-chain", "matmul-chain-no_grad-parameter", "dropout-noise", "frozen-net-rollout"):
+            w = T(np.full((1, 8), 0.125))
         samples = []
         losses = [(par * par).sum() * float(k_ + 1) for k_ in range(10)] if c["mode"] == "backward-inside-no_grad" else []     # built before the block, kept alive
         gc.collect()
@@ -227,6 +258,12 @@ def run_case(ns, mon, c):
                 return w + par                              # the loop-carried value is a direct operand together with a requiring parameter
             if c["mode"] == "no_grad-linear":
                 return sg.linear(w, W)                      # (1,8) carried through a layer whose weight requires grad
+            if c["mode"] in ("matmul-chain", "matmul-chain-no_grad-parameter"):
+                return w @ Wm                               # a Markov chain p <- p @ T: the carried value only ever passes through matrix products
+            if c["mode"] == "dropout-noise":
+                return drop(w)                              # noise injection on a tensor that does not require grad
+            if c["mode"] == "frozen-net-rollout":
+                return net(w)                               # roll-out of a frozen model that contains a Dropout layer
             if c["mode"] == "nested-no_grad":
                 with sg.no_grad():                          # a helper that wraps itself in no_grad, called from an evaluation loop
                     stat = (w * w).sum()
@@ -247,7 +284,7 @@ def run_case(ns, mon, c):
                     w = body(w)
                     if (i + 1) % step == 0:
                         samples.append(mon.live_count() - base)
-        elif c["mode"] in ("no_grad", "no_grad-with-parameter", "no_grad-linear", "nested-no_grad", "backward-inside-no_grad"):
+        elif c["mode"] in ("no_grad", "no_grad-with-parameter", "no_grad-linear", "nested-no_grad", "backward-inside-no_grad", "matmul-chain-no_grad-parameter"):
             with sg.no_grad():
                 for i in range(n):
                     w = body(w)
